@@ -94,6 +94,24 @@ is returned reversed (the parser pops from its end). What `go` / `tokenizeLine` 
 theorem tokenizer_body_documented :
     Gen.C02.body_tokenize = "v1=list();v2=v0.split('\\n');forv3,v4inenumerate(v2):;v5=None;forv6,v7inenumerate(v4):;ifnotv7.isspace()andv7!='#':;ifv5isNone:;v5=v6;continue;elifv5isnotNone:;ifv4[v5]=='_':;v1.append(Token(TokenType.PROPERTY,v4[v5:v6],(v3,v5)));elifv4[v5:v6]=='loop_':;v1.append(Token(TokenType.LOOP,v4[v5:v6],(v3,v5)));else:;v1.append(Token(TokenType.LITERAL,v4[v5:v6],(v3,v5)));v5=None;ifv7=='#':;v1.append(Token(TokenType.COMMENT,v4[v6+1:].strip(),(v3,v6)));break;elifnotv7.isspace():;raiseIOError();ifv5isnotNone:;ifv4[v5]=='_':;v1.append(Token(TokenType.PROPERTY,v4[v5:],(v3,v5)));elifv4[v5:]=='loop_':;v1.append(Token(TokenType.LOOP,v4[v5:],(v3,v5)));else:;v1.append(Token(TokenType.LITERAL,v4[v5:],(v3,v5)));v1.append(Token(TokenType.NEWLINE,None,(v3,0)));returnv1[::-1]" := rfl
 
+/-- **The constructors are the documented ones** (whole-body dumps): `Token.__init__` stores the token type, the value AS GIVEN —
+no normalisation, no trimming, no case folding — and the 1-based location; `Starfile.__init__` on an existing file is exactly
+`self.read(file_path)` — nothing kept between two calls — and otherwise stores its arguments. The harness reads back through
+`Starfile(path)` in a fifth of the write / read cases and in half of the repeated rounds on one path, and writes text cells, labels
+and block names that Unicode normalisation would change. -/
+theorem constructors_documented :
+    Gen.C02.body_token_init = "v0.token_type=v1;v0.value=v2;v0.location=(v3[0]+1,v3[1]+1)" ∧
+    Gen.C02.body_starfile_init = "ifv1andpath.isfile(v1):;v0.frames,v0.specifiers,v0.comments=v0.read(v1);else:;v0.frames=v2;v0.specifiers=v3;v0.comments=v4" :=
+  ⟨rfl, rfl⟩
+
+/-- **The whole of `Starfile.write` is the documented one** (normalised dump of every statement: the defaults, the length check,
+the rounding, the `with`, the three nested functions — the label writers pass the name on uncut, `format_value` pads `str(value)`
+uncut — the block loop with its row loop, and nothing after it). What `printStarC` / `printBlock` / `labelText` / `padCell` /
+`rowText` model; the literal pieces are pinned separately (`writer_literals_documented`, blanks inside string literals by the
+framework's binding fingerprint). A statement added anywhere in the function breaks this theorem. -/
+theorem writer_body_documented :
+    Gen.C02.body_write = "ifv2isNone:;v2=['data']*len(v0);ifv3isNone:;v3=(None,)*len(v0);iflen(v0)!=len(v2)orlen(v0)!=len(v3)orlen(v2)!=len(v3):;raiseValueError();forv6,v7inenumerate(v0):;v0[v6]=v7.round(v5);withopen(v1,'w')asv8:;;defv9(v10,v11):;v8.write(f'_{v10}#{v11}\\n');;defv12(v13,v14):;v8.write(f'_{v13}\\n');;defv15(v16):;return'{:<10}'.format(str(v16));forv17,v18,v19inzip(v0,v2,v3):;v17=v17.map(v15)ifhasattr(v17,'map')elsev17.applymap(v15);v20='stopgap'inv18;v21=v12ifnotv4orv20elsev9;ifv19isnotNone:;forv22inv19:;v8.write(f'\\n#{v22}');v8.write('\\n');v8.write(f'\\n{v18}\\n\\n');v8.write('loop_\\n');forv23,v24inenumerate(v17.columns,1):;v21(v24,v23);ifv20:;v8.write('\\n');forv25inv17.itertuples(index=False):;v8.write('\\t'.join(map(str,v25))+'\\n');v8.write('\\n')" := rfl
+
 /-- **The parser half is the documented one**: whole-body dumps (statement kinds and expressions,
 locals renamed, messages dropped) of `parse_specifier`, `parse_columns`, `parse_column`, `parse_rows`,
 `check`, `consume`, `check_then_consume`, `lookahead`, the loop of `Starfile.read` and
